@@ -181,3 +181,21 @@ def _(h):
             continue
         for k in range(N):
             h.eq(f'N={N} col{k}', r[:, k], h.arr(matvec(R, P[:, k])), scale=1 + nsq(P[:, k]))
+
+
+@claim('udq-from-SE3-route', split=True)
+def _(h):
+    """the dual quaternion built by the library from an SE3 (rotation about a coordinate axis, any translation)
+    transforms a point like the pose itself"""
+    hf = h.angle('hf', 0.01, 1.5)
+    t = h.vec('t', 3, -1e3, 1e3)
+    p = h.vec('p', 3, -1e3, 1e3)
+    if h.sym:
+        s, c = h.sincos(hf)
+        h.sqrt_hint(2 * c)
+        h.sqrt_hint(2 * s)
+    for nm, ref in (('z', rotz_ref), ('x', rotx_ref)):
+        R = h.arr(ref(h, 2 * hf))
+        T = hom(h, R, t)
+        d = UnitDualQuaternion(SE3(T, check=False))
+        h.eq(f'{nm}: UnitDualQuaternion(T) * p = R p + t', np.asarray(d * p).ravel(), h.arr(matvec(R, p)) + t, scale=1 + nsq(p) + nsq(t))
